@@ -212,3 +212,21 @@ VARIANTS += [
     ("C10-interval-no-delegate", "C10", IV, "    def __mod__(self, other: timedelta) -> Duration:  # type: ignore[override]\n        return self.as_duration().__mod__(other)\n", "", "CTOR-LSP"),
     ("C10-as-duration", "C10", IV, "        return Duration(seconds=self.total_seconds())", "        return Duration(seconds=self.in_seconds())", "INTERVAL.delegate"),
 ]
+
+TIME = "src/pendulum/time.py"
+MIX = "src/pendulum/mixins/default.py"
+VARIANTS += [
+    ("C11-clean", "C11", None, "", "", None),
+    ("C11-override-removed", "C11", DT, "    def date(self) -> Date:\n        return Date(self.year, self.month, self.day)\n\n", "", "OVERRIDE.inventory"),
+    ("C11-native-return", "C11", DT, "        dt = super().astimezone(tz)\n\n        return self.__class__(\n            dt.year,\n            dt.month,\n            dt.day,\n            dt.hour,\n            dt.minute,\n            dt.second,\n            dt.microsecond,\n            fold=dt.fold,\n            tzinfo=dt.tzinfo,\n        )", "        return super().astimezone(tz)", "OVERRIDE.returns"),
+    ("C11-time-swap", "C11", DT, "return Time(self.hour, self.minute, self.second, self.microsecond)", "return Time(self.hour, self.second, self.minute, self.microsecond)", "RECON.slot"),
+    ("C11-date-replace-keep", "C11", DATE, "        month = month if month is not None else self.month\n", "        month = month if month is not None else 1\n", "REPLACE.keep"),
+    ("C11-time-replace-fold", "C11", TIME, "            t.hour, t.minute, t.second, t.microsecond, tzinfo=t.tzinfo, fold=t.fold\n", "            t.hour, t.minute, t.second, t.microsecond, tzinfo=t.tzinfo\n", "RECON.state"),
+    ("C11-time-replace-default", "C11", TIME, "        if fold is None:\n            fold = self.fold\n", "        if fold is None:\n            fold = 0\n", "REPLACE.keep"),
+    ("C11-time-replace-order", "C11", TIME, "            hour,\n            minute,\n            second,\n            microsecond,\n            tzinfo=cast(Optional[datetime.tzinfo], tzinfo),", "            hour,\n            second,\n            minute,\n            microsecond,\n            tzinfo=cast(Optional[datetime.tzinfo], tzinfo),", "REPLACE.keep"),
+    ("C11-replace-sig", "C11", DT, "        hour: SupportsIndex | None = None,\n        minute: SupportsIndex | None = None,\n        second: SupportsIndex | None = None,\n        microsecond: SupportsIndex | None = None,\n        tzinfo: bool | datetime.tzinfo | Literal[True] | None = True,", "        minute: SupportsIndex | None = None,\n        hour: SupportsIndex | None = None,\n        second: SupportsIndex | None = None,\n        microsecond: SupportsIndex | None = None,\n        tzinfo: bool | datetime.tzinfo | Literal[True] | None = True,", "LSP.signature"),
+    ("C11-hash-removed", "C11", IV, "    def __hash__(self) -> int:\n        return hash((self.start, self.end, self._absolute))\n\n", "", "EQHASH.pair"),
+    ("C11-str", "C11", MIX, "    def __str__(self) -> str:\n        return self.isoformat()", "    def __str__(self) -> str:\n        return self.ctime()", "STR"),
+    ("C11-fromordinal-native", "C11", DATE, "        dt = super().fromordinal(n)\n\n        return cls(dt.year, dt.month, dt.day)", "        return super().fromordinal(n)", "OVERRIDE.returns"),
+    ("C11-int-timestamp-nofold", "C11", DT, "            tzinfo=self.tzinfo,\n            fold=self.fold,\n        )\n\n        delta = dt - self._EPOCH", "            tzinfo=self.tzinfo,\n        )\n\n        delta = dt - self._EPOCH", "RECON.state"),
+]
